@@ -26,13 +26,13 @@ PARTIAL = [
     "in-place mutation / aliasing of the argument is not modelled (functional model); the oracle compares with a "
     "deep copy of the input taken before the call",
     "polynomial identity is stated in Lean as equality under every rational valuation of the symbols "
-    "(equivalent for linear forms over an infinite field); the oracle compares coefficients",
-    "absence of ZeroDivisionError on in-domain input is proved for the exactness clause only as 'if the model "
-    "returns a triple'; that the model never reports zerodiv / fuel on in-domain input is checked by "
-    "correspondence unless listed in obligations/C13.txt",
+    "(equivalent for linear forms over an infinite field; K = Rat to stay in core Lean); the oracle compares "
+    "coefficients",
+    "index accesses of the model are totalised with defaults (gM); that they are never out of range is "
+    "guaranteed by the loop bounds and checked by correspondence (Python would raise IndexError), not proved",
 ]
 ASSUMPTIONS = [
-    "input domain: rectangular, >= 1 row and >= 1 column; numbers are fractions.Fraction (zero is Fraction(0), "
+    "input domain: rectangular, >= 1 row; numbers are fractions.Fraction (zero is Fraction(0), "
     "as produced by StateDiagram._setup_gamma_matrix; an int 0 in the input makes are_parallel_row raise "
     "TypeError); symbolic entries are (Fraction != 0, non-empty str)",
     "int 0 and Fraction(0) in the OUTPUT are identified (both are the number zero; the code tells them apart only "
@@ -381,6 +381,8 @@ EXTRA_DOMAIN = [
 ]
 
 HAND = [
+    {"kind": "gauss", "rows": 1, "cols": 0, "ent": []},
+    {"kind": "gauss", "rows": 3, "cols": 0, "ent": []},
     # tests/test_gaussian_elimination.py of the repository and a few structured cases
     {"kind": "gauss", "rows": 3, "cols": 3, "ent": ["2", "1", "-1", "-3", "-1", "2", "-2", "1", "2"]},
     {"kind": "gauss", "rows": 3, "cols": 5,
